@@ -413,7 +413,10 @@ def verdict(ctx, search=None, level="proof"):
             print(f"  {b[:300]}")
         return 1
     write_evidence(ctx, level, violations=0)
+    # translators that fell back on their reference definitions in this run (the correspondence is then the only tie for that part)
+    fb = sum(v for k, v in ctx.hist.get("translator", {}).items() if k.endswith(":fallback")) \
+        + sum(1 for n in ctx.notes if isinstance(n, str) and n.startswith("translator(") and ("untranslated" in n or "probed" in n.lower()))
     print(f"OK property={ctx.prop} tier={ctx.tier} seed={ctx.seed} evaluations={ctx.evaluations} "
           f"nontrivial={len(ctx.nontrivial)} obligations={ctx.proof.obligations if ctx.proof else 0} "
-          f"wall={time.time() - ctx.t0:.1f}s")
+          + (f"translator_fallbacks={fb} " if fb else "") + f"wall={time.time() - ctx.t0:.1f}s")
     return 0
